@@ -505,6 +505,11 @@ func init() {
 				// a block that closes a few tokens before a lexical failure
 				"def b {\n x = 1\n}\nprint 1 @\nprint 2\n",
 				"def a { def b { x = 1 } }\n\n\"open\n",
+				// a syntax error followed at once by every unusual thing the lexer knows: look-alike spaces, CR line ends, comments,
+				// escapes, number forms (whatever else the lexer does about them, it does it while the parser reports the error)
+				"print )\nprint\u00a01\nprint\u00852\n",
+				"print )\u00a0print )\u0085\nprint 3\n",
+				"print )\r\n# c\rprint \"a\\tb\" + 0x1f + 1e3 + 010\r\n",
 			}
 			for _, in := range pipeInputs {
 				n := len(in)
